@@ -333,8 +333,37 @@ func (e *env) deviceFlow(c *vclient.Client) {
 	e.d.AuthAge = age.String()
 	at := time.Now().Add(-age).Truncate(time.Second)
 	amr := pick(r, []string{"pwd"}, []string{"pwd", "otp"}, nil)
-	e.w.Store.EditDevice(dc, func(d *vstore.Device) { d.AuthTime, d.AMR = at, amr })
-	x.Subject, x.AuthTime, x.AMR = user, at.Unix(), amr
+	// audience the approval page / storage registers on the device authorization (DeviceAuthorizationState.Audience):
+	// nothing (the usual case), the client only, a resource next to the client (either order), or resources WITHOUT the
+	// client (the API the device talks to). The request object of this grant is the library's own type, so composing
+	// the token audience from these parts is the library's job: the client must end up in it, the registered resources too.
+	audKind := pick(r, "none", "none", "client", "extra+client", "client+extra", "extra-only", "extra-only", "two-extras-only")
+	var extra, reg []string
+	switch audKind {
+	case "client":
+		reg = []string{c.ID}
+	case "extra+client":
+		extra = []string{"https://api.example/device-resource"}
+		reg = []string{extra[0], c.ID}
+	case "client+extra":
+		extra = []string{"https://api.example/device-resource"}
+		reg = []string{c.ID, extra[0]}
+	case "extra-only":
+		extra = []string{"https://api.example/device-resource"}
+		reg = slices.Clone(extra)
+	case "two-extras-only":
+		extra = []string{"https://api.example/device-resource", "urn:verif:tv-backend"}
+		reg = slices.Clone(extra)
+	}
+	e.d.ReqAud = audKind
+	e.w.Store.EditDevice(dc, func(d *vstore.Device) { d.AuthTime, d.AMR, d.Audience = at, amr, slices.Clone(reg) })
+	x.Subject, x.AuthTime, x.AMR, x.ExtraAud = user, at.Unix(), amr, extra
+	// registered audience followed by the client unless it is listed already (the order is not part of the statement: judged as a set)
+	x.ATAud, x.ATAudAsSet = slices.Clone(reg), true
+	if !slices.Contains(reg, c.ID) {
+		x.ATAud = append(x.ATAud, c.ID)
+	}
+	x.RegAud = reg
 	e.step(1)
 	x.Issuer = e.issuer()
 	tr, t0, t1 := timed(func() *opdrv.Resp {
@@ -612,10 +641,12 @@ func main() {
 	run := ev.Start("C06", "exploration")
 	run.SetRule("one case = one fresh provider (dimensions: signing alg of keys.AllAlgs, key-set shape, rotation, crypto key, issuer strategy and Host/Forwarded headers, client skew, id-token lifetime, access TTL, access token type, userinfo assertion, storage extras, custom claims) driving one flow " +
 		"{code(+refresh x2), implicit id_token, implicit id_token token, device(+refresh), client_credentials, jwt-bearer, token-exchange requested access/refresh/id/unspecified} with conforming requests on both routers; " +
+		"the login UI / device approval page registers an audience on the underlying request {none, client, resource+client, client+resource, resource(s) without the client}; " +
 		"an evaluation is one judged token response; distinct = distinct vectors (router, step, flow, signing alg, key shape, token type, skew, id lifetime, scope class, assertion, extras, custom-claim class, issuer mode, client)")
 	run.Assume("vstore policy: userinfo subject is set for scope openid only; token exchange keeps the known scopes (or [openid]) and may impersonate; storage expirations are hours in the future",
 		"auth_time may be shifted back by the client skew; exp-iat must be lifetime + 2 x skew within 2 s (DESIGN 6a C06)",
 		"a storage-provided custom claim standing where the library sets no registered claim (nonce, acr, amr, at_hash, c_hash without their source) is grey; iss/sub/aud/exp/iat/azp/client_id must always be the library's own",
+		"JWT access token audience: equals the audience of the storage-owned request object (code, refresh, jwt-bearer, token exchange; DESIGN 6a); in the device grant the request object is the library's own, so the audience must contain the client and every audience the storage registered on the device authorization, and nothing else (order / repetition grey)",
 		"absence of c_hash in a code-exchange id_token and of user claims for granted scopes is grey (the statement is one-directional)",
 		"a conforming request that yields no tokens is inconclusive, not a violation (C06 speaks about issued tokens)")
 	var mand []string
@@ -626,7 +657,9 @@ func main() {
 		for _, s := range []string{"code", "implicit", "refresh", "device", "token_exchange"} {
 			mand = append(mand, "id_token:"+s+":"+rn)
 		}
-		mand = append(mand, "ring:id_token:"+rn, "jwt_access:"+rn, "opaque_access:"+rn, "userinfo_hook_restricted:"+rn, "id_scopes_dropped_by_client:"+rn)
+		mand = append(mand, "ring:id_token:"+rn, "jwt_access:"+rn, "opaque_access:"+rn, "userinfo_hook_restricted:"+rn, "id_scopes_dropped_by_client:"+rn,
+			// device grant whose stored authorization carries a non-empty audience that does not list the client
+			"device_registered_audience_without_client:access_jwt:"+rn, "device_registered_audience_without_client:id_token:"+rn)
 	}
 	for _, a := range keys.AllAlgs {
 		mand = append(mand, "alg:"+string(a))
